@@ -26,6 +26,7 @@ import (
 	"go.uber.org/zap"
 
 	"github.com/mimiro-io/datahub/internal/conf"
+	"github.com/mimiro-io/datahub/internal/verifhook"
 )
 
 const datasetCore = "core.Dataset"
@@ -110,8 +111,11 @@ type UpdateDatasetConfig struct {
 }
 
 func (dsm *DsManager) CreateDataset(name string, createDatasetConfig *CreateDatasetConfig) (*Dataset, error) {
+	verifhook.Point("lock.wait", "#dsm")
 	dsm.lock.Lock()
+	verifhook.Point("lock.acquired", "#dsm")
 	defer dsm.lock.Unlock()
+	defer verifhook.Point("lock.release", "#dsm")
 	exists := dsm.IsDataset(name)
 	if exists {
 		return dsm.GetDataset(name), nil
@@ -128,6 +132,7 @@ func (dsm *DsManager) CreateDataset(name string, createDatasetConfig *CreateData
 	if err != nil {
 		return nil, err
 	}
+	verifhook.Point("create.afterNextId", name)
 	if createDatasetConfig != nil {
 		ds.ProxyConfig = createDatasetConfig.ProxyDatasetConfig
 		ds.PublicNamespaces = createDatasetConfig.PublicNamespaces
@@ -139,6 +144,7 @@ func (dsm *DsManager) CreateDataset(name string, createDatasetConfig *CreateData
 	if err != nil {
 		return nil, err
 	}
+	verifhook.Point("create.afterRecord", name)
 
 	dsm.store.datasets.Store(name, ds)
 	dsm.store.datasetsByInternalID.Store(ds.InternalID, ds)
@@ -155,6 +161,7 @@ func (dsm *DsManager) CreateDataset(name string, createDatasetConfig *CreateData
 	if err != nil {
 		return ds, err
 	}
+	verifhook.Point("create.afterMeta", name)
 
 	// making sure the event is triggered
 	dsm.eb.Emit(context.Background(), "dataset.core.Dataset", nil)
@@ -163,8 +170,11 @@ func (dsm *DsManager) CreateDataset(name string, createDatasetConfig *CreateData
 }
 
 func (dsm *DsManager) UpdateDataset(name string, config *UpdateDatasetConfig) (*Dataset, error) {
+	verifhook.Point("lock.wait", "#dsm")
 	dsm.lock.Lock()
+	verifhook.Point("lock.acquired", "#dsm")
 	defer dsm.lock.Unlock()
+	defer verifhook.Point("lock.release", "#dsm")
 	if name == datasetCore {
 		return nil, errors.New("cannot update " + datasetCore)
 	}
@@ -174,8 +184,11 @@ func (dsm *DsManager) UpdateDataset(name string, config *UpdateDatasetConfig) (*
 	}
 
 	ds := dsm.GetDataset(name)
+	verifhook.Point("lock.wait", name)
 	ds.WriteLock.Lock()
+	verifhook.Point("lock.acquired", name)
 	defer ds.WriteLock.Unlock()
+	defer verifhook.Point("lock.release", name)
 
 	// new ID means rename
 	if config.ID != name {
@@ -196,6 +209,7 @@ func (dsm *DsManager) UpdateDataset(name string, config *UpdateDatasetConfig) (*
 		if err != nil {
 			return nil, err
 		}
+		verifhook.Point("rename.afterMove", name)
 
 		// update in local cache
 		dsm.store.datasets.Delete(name)
@@ -223,6 +237,7 @@ func (dsm *DsManager) UpdateDataset(name string, config *UpdateDatasetConfig) (*
 		if err != nil {
 			return nil, err
 		}
+		verifhook.Point("rename.afterOldMeta", name)
 		entity.IsDeleted = false
 		entity.ID = dsInfo.DatasetPrefix + ":" + newName
 		entity.Properties[dsInfo.NameKey] = newName
@@ -230,6 +245,7 @@ func (dsm *DsManager) UpdateDataset(name string, config *UpdateDatasetConfig) (*
 		if err != nil {
 			return nil, err
 		}
+		verifhook.Point("rename.afterNewMeta", name)
 		dsm.eb.Emit(context.Background(), "dataset.core.Dataset", nil)
 	}
 	return ds, nil
@@ -237,8 +253,11 @@ func (dsm *DsManager) UpdateDataset(name string, config *UpdateDatasetConfig) (*
 
 // DeleteDataset deletes dataset if it exists
 func (dsm *DsManager) DeleteDataset(name string) error {
+	verifhook.Point("lock.wait", "#dsm")
 	dsm.lock.Lock()
+	verifhook.Point("lock.acquired", "#dsm")
 	defer dsm.lock.Unlock()
+	defer verifhook.Point("lock.release", "#dsm")
 	if name == datasetCore {
 		return errors.New("cannot delete " + datasetCore)
 	}
@@ -260,6 +279,7 @@ func (dsm *DsManager) DeleteDataset(name string) error {
 	if err != nil {
 		return err
 	}
+	verifhook.Point("delete.afterRecord", name)
 
 	// record we deleted it.
 	// swap map out with new modified copy of map to avoid concurrent read/write issues which can occur if
@@ -274,6 +294,7 @@ func (dsm *DsManager) DeleteDataset(name string) error {
 	if err != nil {
 		return err
 	}
+	verifhook.Point("delete.afterDeletedSet", name)
 
 	dsm.eb.UnregisterTopic(name) // unregister event-handler on this topic. Note that subscriptions are left.
 
@@ -288,6 +309,7 @@ func (dsm *DsManager) DeleteDataset(name string) error {
 	if err != nil {
 		return err
 	}
+	verifhook.Point("delete.afterMeta", name)
 	dsm.eb.Emit(context.Background(), "dataset.core.Dataset", nil)
 
 	// fixme: schedule background job for cleaning up
